@@ -150,7 +150,9 @@ func (h *c17h) ctx() sdk.Context { return h.f.Ctx }
 
 func (h *c17h) modAddr() sdk.AccAddress { return authtypes.NewModuleAddress(dymnstypes.ModuleName) }
 
-func (h *c17h) bal(a sdk.AccAddress) math.Int { return h.f.App.BankKeeper.GetBalance(h.ctx(), a, c17Denom).Amount }
+func (h *c17h) bal(a sdk.AccAddress) math.Int {
+	return h.f.App.BankKeeper.GetBalance(h.ctx(), a, c17Denom).Amount
+}
 
 func (h *c17h) decodeAddr(text string) string {
 	hrp, bz, err := bech32.DecodeAndConvert(text)
